@@ -126,6 +126,9 @@ func (s *fstate) killX(root types.Object, path []string, viaCall bool) *fstate {
 		if f.S == "called" {
 			continue // an event that happened stays true
 		}
+		if f.S == "orig" && (len(path) > 0 || viaCall) {
+			continue // the variable still holds the caller's value; only a reassignment ends that
+		}
 		hit := mentions(f, root, path)
 		if hit && f.S == "def" && (len(path) > 0 || viaCall) && len(f.A) >= 2 && f.A[0].K == "var" && f.A[0].Obj == root {
 			// a field store through v does not change where the pointer v came from
@@ -725,6 +728,24 @@ func (f *e1func) run() {
 		in[i] = map[string]*fstate{}
 	}
 	entry := &fstate{facts: map[string]*Term{}}
+	// parameters hold the caller's values until they are reassigned
+	if sig := f.fi.Sig; sig != nil {
+		var ps []*types.Var
+		if r := sig.Recv(); r != nil {
+			ps = append(ps, r)
+		}
+		for i := 0; i < sig.Params().Len(); i++ {
+			ps = append(ps, sig.Params().At(i))
+		}
+		for _, p := range ps {
+			if p.Name() == "" || p.Name() == "_" {
+				continue
+			}
+			if ns := entry.with(fact("orig", &Term{K: "var", S: p.Name(), Obj: p})); ns != nil {
+				entry = ns
+			}
+		}
+	}
 	// named results start with their zero value
 	if sig := f.fi.Sig; sig != nil {
 		for i := 0; i < sig.Results().Len(); i++ {
@@ -1118,7 +1139,8 @@ func (f *e1func) transfer(st *fstate, n ast.Node, sites *[]*e1site) []*fstate {
 				continue
 			}
 			if r, p, ok := accessPath(lt); ok && r != nil {
-				st = st.kill(r, p)
+				// *p = v, p.f = v, p[i] = v write through p; only `p = v` rebinds the variable itself
+				st = st.killX(r, p, lt.K != "var")
 			} else if lt.K == "const" {
 				// store to a package-level variable: drop facts naming it
 				n := st.clone()
@@ -1252,6 +1274,16 @@ func (f *e1func) collectSites(n ast.Node, states []*fstate, sites *[]*e1site) {
 					continue
 				}
 				*sites = append(*sites, &e1site{kind: "store", node: s, term: mk("store", s.Tok.String(), lt, f.term(s.Rhs[i])), pos: s.Lhs[i].Pos(), states: states})
+			}
+		} else if len(s.Rhs) == 1 {
+			// a, b = f(): each target receives res(i, f())
+			rt := f.term(s.Rhs[0])
+			for i := range s.Lhs {
+				lt := f.lhsTerm(s.Lhs[i])
+				if lt == nil || lt.K == "var" {
+					continue // plain variables are covered by def facts
+				}
+				*sites = append(*sites, &e1site{kind: "store", node: s, term: mk("store", s.Tok.String(), lt, mk("res", fmt.Sprint(i), rt)), pos: s.Lhs[i].Pos(), states: states})
 			}
 		}
 	case *ast.GoStmt:
